@@ -4,11 +4,13 @@
 MC   : TLC checks PassThroughIsIdentity, HtmlGetsExactlyOneScript, LengthMatchesBody and
        EncodingHeaderDescribesBody on the response pipeline for the whole abstract configuration space
        (content type x encoding x request kind x skip marker x CSP shape x body shape x client
-       Accept-Encoding = 6272 configurations). Negative configs that TLC must reject: the pipeline as coded
-       at the pinned commit (an unsupported Content-Encoding falls through to the rewrite) and a forgotten
-       Content-Length update.
-GEN  : what the tree does with an unsupported encoding is probed on the real proxy and selects the spec
-       constant; TLC then prints every configuration with the predicted response and EVERY one is replayed end
+       Accept-Encoding = 9856 configurations; a CSP is header lines > comma-separated policies > directives >
+       sources, the nonce extraction is transcribed at that level). Negative configs that TLC must reject: the
+       pipeline as coded at the pinned commit (an unsupported Content-Encoding falls through to the rewrite), the
+       nonce extraction as coded (first header line only, policy lists not split) and a forgotten Content-Length
+       update.
+GEN  : what the tree does with an unsupported encoding and with a script nonce in the second CSP header line is
+       probed on the real proxy and selects the spec constants; TLC then prints every configuration with the predicted response and EVERY one is replayed end
        to end (httptest backend -> real proxy.New handler -> HTTP client without transparent decompression) at
        several body sizes (0, ~1 KiB, around 4 KiB / 32 KiB / 64 KiB boundaries, 3 MiB for a seeded subset);
        the property is evaluated on the real response: byte identity for pass-through, x/net/html DOM equality
@@ -38,27 +40,46 @@ def main():
     mc = vlib.tlc("Proxy", "Proxy_mc.cfg", workers=4, timeout=600)
     if not mc.ok:
         raise vlib.InfraError("Proxy model (repaired rule) violates %s: spec inconsistent" % mc.violated)
-    ck.add_tlc(mc, "Proxy_mc (UnsupportedRule=pass)")
+    ck.add_tlc(mc, "Proxy_mc (UnsupportedRule=pass, CspRule=policylist)")
     negs = {}
-    for cfg, inv in (("Proxy_ascoded.cfg", "PassThroughIsIdentity"), ("Proxy_neg_length.cfg", "LengthMatchesBody")):
+    for cfg, inv in (("Proxy_ascoded.cfg", "PassThroughIsIdentity"), ("Proxy_ascoded_csp.cfg", "HtmlGetsExactlyOneScript"),
+                     ("Proxy_neg_length.cfg", "LengthMatchesBody")):
         r = vlib.tlc("Proxy", cfg, workers=1, timeout=300)
         if r.violated != inv:
             raise vlib.InfraError("negative config %s was not rejected with %s (got %s)" % (cfg, inv, r.violated))
         negs[cfg] = inv
     ck.set("negative_configs_rejected", negs)
 
-    # --- which rule does the tree implement? decided by the real proxy ------------------------------
+    # --- which rules does the tree implement? decided by the real proxy ------------------------------
+    # (the probe and the self-test take their configurations -- including the CSP header structure -- from TLC)
+    NCASES = 4 * 4 * 2 * 2 * 11 * 7 * 2
+    sc = vlib.scratch()
+
+    def emit(rule, csprule, name):
+        g = vlib.tlc("Proxy", "g.cfg", files={"g.cfg": cfg_with("Proxy_gen.cfg", UnsupportedRule='"%s"' % rule, CspRule='"%s"' % csprule)},
+                     workers=1, timeout=900)
+        cs = g.tagged("CASE")
+        if not g.ok or len(cs) != NCASES:
+            raise vlib.InfraError("case emission incomplete: %d cases" % len(cs))
+        path = os.path.join(sc, name)
+        with open(path, "w") as fh:
+            for c in cs:
+                fh.write(json.dumps(c) + "\n")
+        return g, cs, path
+
     binp = vlib.go_build("./c20", "c20")
-    p = vlib.run([binp, "probe"], check=False)
-    s = vlib.harness_results(ck, p)
-    rule = s["rule"]
-    if rule not in ("pass", "rewrite"):
+    gen, cases, cpath = emit("pass", "policylist", "cases0.ndjson")
+    s = vlib.harness_results(ck, vlib.run([binp, "probe", cpath], check=False))
+    rule, csprule = s.get("rule"), s.get("csprule")
+    if rule not in ("pass", "rewrite") or csprule not in ("firstline", "policylist"):
         raise vlib.InfraError("probe: %r" % s)
     ck.set("unsupported_encoding_rule_of_tree", rule)
+    ck.set("csp_rule_of_tree", csprule)
     vlib.log("tree handles an unsupported Content-Encoding by:", rule, "-", s.get("detail", ""))
+    vlib.log("tree looks for the script nonce in:", csprule, "-", s.get("cspdetail", ""))
 
     # --- binding self-test: corrupted predictions must be reported by the harness ---------------------
-    st = vlib.harness_results(ck, vlib.run([binp, "selftest"], check=False))
+    st = vlib.harness_results(ck, vlib.run([binp, "selftest", cpath], check=False))
     selftest_failed = None
     if (st["a"], st["b"], st["c"], st["d"]) != ("PassThroughIsIdentity", "HtmlGetsExactlyOneScript", "HtmlGetsExactlyOneScript", ""):
         # the self-test goes through the real proxy: if the tree itself breaks the property the uncorrupted twin fails
@@ -68,17 +89,9 @@ def main():
         ck.set("binding_selftest", "3 corrupted predictions reported, the uncorrupted twin accepted")
 
     # --- GEN: every configuration, end to end --------------------------------------------------------
-    gen = vlib.tlc("Proxy", "g.cfg", files={"g.cfg": cfg_with("Proxy_gen.cfg", UnsupportedRule='"%s"' % rule)},
-                   workers=1, timeout=900)
-    cases = gen.tagged("CASE")
-    if not gen.ok or len(cases) != 4 * 4 * 2 * 2 * 7 * 7 * 2:
-        raise vlib.InfraError("case emission incomplete: %d cases" % len(cases))
-    ck.add_tlc(gen, "Proxy_gen (case emission, UnsupportedRule=%s)" % rule)
-    sc = vlib.scratch()
-    cpath = os.path.join(sc, "cases.ndjson")
-    with open(cpath, "w") as fh:
-        for c in cases:
-            fh.write(json.dumps(c) + "\n")
+    if (rule, csprule) != ("pass", "policylist"):
+        gen, cases, cpath = emit(rule, csprule, "cases.ndjson")
+    ck.add_tlc(gen, "Proxy_gen (case emission, UnsupportedRule=%s, CspRule=%s)" % (rule, csprule))
     p = vlib.run([binp, "cases", cpath, str(ck.seed), ck.tier], check=False, timeout=3000)
     s = vlib.harness_results(ck, p)
     if s["cases"] != len(cases) or s["cases_replayed"] != len(cases):
@@ -101,11 +114,11 @@ def main():
     ck.set("max_body_bytes", s["max_body_bytes"])
     ck.set("traces_validated_against_impl", s["exchanges"])
     ck.set("exhaustive", True)
-    ck.set("bounds", {"content_types": 4, "encodings": 4, "requests": 2, "skip_marker": 2, "csp_shapes": 6, "body_shapes": 7,
+    ck.set("bounds", {"content_types": 4, "encodings": 4, "requests": 2, "skip_marker": 2, "csp_shapes": 11, "body_shapes": 7,
                       "accept_encoding": 2, "sizes": "0, ~1 KiB, 4095..4097, 32767..32769, 65536, 3 MiB (seeded subset)"})
-    ck.set("rule", "every abstract configuration (6272) is replayed end to end on the real proxy at >= 2 body sizes; "
+    ck.set("rule", "every abstract configuration (%d)" % NCASES + "  is replayed end to end on the real proxy at >= 2 body sizes; "
                    "documents are well-formed pages stable under x/net/html parse/render/parse")
-    ck.assume("Content-Type and Content-Encoding tokens are lower-case as servers send them; one Content-Security-Policy header line")
+    ck.assume("Content-Type and Content-Encoding tokens are lower-case as servers send them; Content-Security-Policy: zero, one or two header lines, or one line with a comma-separated policy list")
     ck.assume("a client that sends no Accept-Encoding gets Go's transport-level transparent gunzip: pass-through is then judged on the decoded bytes")
     ck.assume("DOM equality is judged by golang.org/x/net/html (the parser the proxy itself uses)")
     if selftest_failed is not None and ck._nviol == 0:
